@@ -49,6 +49,79 @@ def mark_list(ns):
     return [mark_node(n, ctr) for n in ns], ctr[1]
 
 
+def slot_origs(line: str):
+    """(id, kind, original content) of every slot of the tree(s) in a render line, in marking order"""
+    from wire import p_node
+    t = Toks(line)
+    opn = t.next()
+    if opn == "render_tag_via":
+        t.next()
+    if opn == "render_list":
+        _, slots = mark_list(p_list(t, p_node))
+    else:
+        _, slots = mark_tree(p_node(t))
+    return slots
+
+
+TEXT_SPECIALS = "&<>"
+ATTR_SPECIALS = "&<>\"'\r\n"
+
+
+def consume_escape(orig: str, out: str, pos: int, specials: str):
+    """read `out` from `pos` as an escape of `orig` in the sense of the statement: every special character as SOME
+    character reference that decodes to it, every other character unchanged; -> end position or None.
+    (Search-side twin of the Lean `validEscape`; the Lean definition stays the arbiter.)"""
+    import html as _html
+    for c in orig:
+        if c in specials:
+            if not out.startswith("&", pos):
+                return None
+            j = out.find(";", pos)
+            if j < 0 or j - pos > 12:
+                return None
+            ref = out[pos:j + 1]
+            body = ref[1:-1]
+            ok = body in ("amp", "lt", "gt", "quot", "apos") or (body[:1] == "#" and (body[1:].isdigit() or (body[1:2] in "xX" and body[2:] != "" and all(h in "0123456789abcdefABCDEF" for h in body[2:]))))
+            if not ok or _html.unescape(ref) != c:
+                return None
+            pos = j + 1
+        else:
+            if not out.startswith(c, pos):
+                return None
+            pos += len(c)
+    return pos
+
+
+def walk_output(marked_out: str, real_out: str, slots, contribs):
+    """read the real output along the skeleton of the marked output.
+    -> ('ok', None) | ('skeleton', position) | ('slot', (id, kind, orig, position))"""
+    parts = MARK_RE.split(marked_out)
+    ids = [int(x) for x in parts[1::2]]
+    segs = parts[0::2]
+    orig = {i: (k, o) for (i, k, o) in slots}
+    kind_of = {i: k for (i, k, _) in contribs}
+    pos = 0
+    if not real_out.startswith(segs[0]):
+        return "skeleton", 0
+    pos = len(segs[0])
+    for n, i in enumerate(ids):
+        k = kind_of.get(i)
+        o = orig.get(i, (None, ""))[1]
+        if k == "t":
+            e = consume_escape(o, real_out, pos, TEXT_SPECIALS)
+        elif k == "a":
+            e = consume_escape(o, real_out, pos, ATTR_SPECIALS)
+        else:
+            e = pos + len(o) if real_out.startswith(o, pos) else None
+        if e is None:
+            return "slot", (i, k, o, pos)
+        pos = e
+        if not real_out.startswith(segs[n + 1], pos):
+            return "skeleton", pos
+        pos += len(segs[n + 1])
+    return ("ok", None) if pos == len(real_out) else ("skeleton", pos)
+
+
 def parse_contribs(ans: str):
     t = Toks(ans)
 
@@ -62,21 +135,6 @@ def parse_contribs(ans: str):
 def substitute(marked_out: str, contribs) -> str:
     emit = {i: e for i, _, e in contribs}
     return MARK_RE.sub(lambda m: emit.get(int(m.group(1)), m.group(0)), marked_out)
-
-
-def align(marked_out: str, real_out: str, max_slots: int = 40):
-    """try to explain real_out as marked_out with *some* contents in the marker slots;
-    returns {id: content} or None if no alignment exists (or too large to try)"""
-    parts = MARK_RE.split(marked_out)  # S0, id1, S1, id2, ...
-    ids = [int(x) for x in parts[1::2]]
-    segs = parts[0::2]
-    if len(ids) > max_slots:
-        return None
-    rx = "^" + re.escape(segs[0]) + "".join("(.*?)" + re.escape(s) for s in segs[1:]) + "$"
-    m = re.match(rx, real_out, re.S)
-    if not m:
-        return None
-    return {i: m.group(j + 1) for j, i in enumerate(ids)}
 
 
 def check_cases(ck: core.Check, cases, kinds: set[str], prop_desc: str, direct=None):
@@ -108,6 +166,7 @@ def check_cases(ck: core.Check, cases, kinds: set[str], prop_desc: str, direct=N
     marked = core.impl_many(marked_lines)
     contribs = ck.driver.run(contrib_lines)
     from wire import ds
+    n_slot_fail = [0]
     for line, r, m, cb in zip(real_lines, real, marked, contribs):
         ck.holds_checked += 1
         if not (r.startswith("ok ") and m.startswith("ok ")):
@@ -122,15 +181,34 @@ def check_cases(ck: core.Check, cases, kinds: set[str], prop_desc: str, direct=N
         exp = substitute(ms, cs)
         if exp == rs:
             continue
-        al = align(ms, rs)
-        if al is not None:
-            bad = [(i, k, e, al.get(i)) for (i, k, e) in cs if al.get(i) != e]
-            badm = [b for b in bad if b[1] in kinds]
-            if badm:
-                i, k, e, got = badm[0]
-                ck.py_violation(line, r, f"{prop_desc}: slot {i} (kind {k}) is emitted as {got!r}, the statement requires {e!r}",
-                                py=f"marked rendering: {ms!r}")
-            # slots of other kinds that differ belong to the sibling property (C02/C03/C04) and are reported there
+        what, info = walk_output(ms, rs, slot_origs(line), cs)
+        if what == "ok":
+            # every slot holds a valid escape / the verbatim content, only not the bytes the model writes
+            ck.failures.append(core.Failure("correspondence", line=line, impl=r, model="ok " + es(exp),
+                                            detail="slots are escaped validly but not as the model writes them"))
+            continue
+        if what == "slot":
+            i, k, o, pos = info
+            if k in kinds:
+                n_slot_fail[0] += 1
+                if n_slot_fail[0] <= 50:      # a handful of witnesses is enough; keep the search fast
+                    arb = "F"
+                    if k in ("t", "a"):
+                        # the Lean definition is the arbiter, on the stretch up to the next piece of skeleton
+                        parts = MARK_RE.split(ms)
+                        ids_ = [int(x) for x in parts[1::2]]
+                        nxt = parts[0::2][ids_.index(i) + 1] if i in ids_ else ""
+                        end = rs.find(nxt, pos) if nxt else min(len(rs), pos + 8 * len(o) + 2)
+                        cand = rs[pos:end if end >= 0 else len(rs)]
+                        arb = ck.driver.run([f"valid_escape {'T' if k == 'a' else 'F'} {es(o)} {es(cand)}"])[0]
+                    if arb != "T":
+                        ck.py_violation(line, r, f"{prop_desc}: slot {i} (kind {k}, content {o[:80]!r}) is written as {rs[pos:pos + 80]!r}…, which is "
+                                        f"neither what the model writes nor any valid rendering of that content", py=f"marked rendering: {ms[:400]!r}")
+                        continue
+                else:
+                    ck.tagc("further_slot_failures_not_expanded")
+                    continue
+            # a slot of a kind owned by a sibling property (C02/C03/C04): reported by that property's check
             continue
         # no alignment: the layout itself depends on content -> skeleton correspondence broken; try the direct statement
         verdict = direct(line, rs) if direct else None
